@@ -519,6 +519,10 @@ func (c *Ctx) MapFat() *Doc {
 			obj.Properties[prop] = &Schema{Type: "string"}
 			obj.Required = append(obj.Required, prop)
 			sort.Strings(obj.Required)
+			if c.discriminated == nil {
+				c.discriminated = map[string]bool{}
+			}
+			c.discriminated[name] = true
 			one.OneOf = append(one.OneOf, &Schema{Ref: RefSchemas + name})
 			one.Discriminator.Mapping[c.PlainName("m", "fatmap")] = RefSchemas + name
 			if rapid.Bool().Draw(t, "second_mapping") {
